@@ -77,6 +77,8 @@ pub struct ScInfo<'a> {
     pub s: &'a ScSpec,
     pub serial: bool,
     pub retry: Option<(usize, Option<u64>)>,
+    /// `Retries::current` of the first attempt (non-zero only under a custom retry options function).
+    pub retry_start: usize,
     /// feature background ++ rule background ++ own steps; bool = background.
     pub steps: Vec<(&'a StepSpec, bool)>,
     pub allow_skipped: bool,
@@ -174,7 +176,11 @@ impl<'a> Analysis<'a> {
                         r,
                         s,
                         serial,
-                        retry: expected_retry(f, r, s, &case.cfg),
+                        retry: match crate::spec::resumed_tag(&s.tags).filter(|_| case.cfg.resume) {
+                            Some((_, left)) => Some((left, None)),
+                            None => expected_retry(f, r, s, &case.cfg),
+                        },
+                        retry_start: crate::spec::resumed_tag(&s.tags).filter(|_| case.cfg.resume).map_or(0, |x| x.0),
                         steps,
                         allow_skipped: inherited.contains(&"allow.skipped"),
                         item: item_idx,
